@@ -134,6 +134,30 @@ func finalizeAndRespond(r responder.Responder, resp io.Reader, status int, req *
 
 func (p *Proxy) handleRangeRequest(r responder.Responder, req *http.Request, cached *cache.Entry[cachedRequestInfo], key cache.CacheKey, clientHd *headers.HeaderDirectives) error {
 	rangeHeader := clientHd.Range.Value()
+	// If-Range is looked at first: when the validator does not match, the Range is ignored altogether
+	// and the full response is sent, whether or not the range would have fitted the stored body.
+	if clientHd.IfRange.IsPresent() {
+		ifRange := clientHd.IfRange.Value()
+		if ifRange.IsLeft() {
+			// IfRange is ETag
+			etagIfRange := ifRange.ForceUnwrapLeft()
+			if etagIfRange != cached.Metadata.Object.ETag {
+				slog.Info("If-Range does not match cached ETag. Sending full 200 response.", "url", req.URL, "key", key)
+				return ErrIfRangeMismatch
+			}
+		} else {
+			// IfRange is Time
+			timeIfRange := ifRange.ForceUnwrapRight()
+			// Without a stored Last-Modified there is nothing the date could match
+			// and a date is a match only if it is the stored Last-Modified itself (RFC 9110 section 13.1.5)
+			if cached.Metadata.Object.LastModified.IsZero() || !timeIfRange.Equal(cached.Metadata.Object.LastModified) {
+				slog.Info("If-Range does not match cached Last-Modified. Sending full 200 response.", "url", req.URL, "key", key)
+				return ErrIfRangeMismatch
+			}
+		}
+
+	}
+
 	start, end, err := rangeHeader.SliceSize(cached.Metadata.Size)
 	if err != nil {
 		slog.Error("Error slicing Range header", "url", req.URL, "key", key, "error", err, "range_header", rangeHeader, "file_size", cached.Metadata.Size)
@@ -162,28 +186,6 @@ func (p *Proxy) handleRangeRequest(r responder.Responder, req *http.Request, cac
 
 		r.SetHeaders(header)
 		return finalizeAndRespond(r, data, status, req)
-	}
-
-	if clientHd.IfRange.IsPresent() {
-		ifRange := clientHd.IfRange.Value()
-		if ifRange.IsLeft() {
-			// IfRange is ETag
-			etagIfRange := ifRange.ForceUnwrapLeft()
-			if etagIfRange != cached.Metadata.Object.ETag {
-				slog.Info("If-Range does not match cached ETag. Sending full 200 response.", "url", req.URL, "key", key)
-				return ErrIfRangeMismatch
-			}
-		} else {
-			// IfRange is Time
-			timeIfRange := ifRange.ForceUnwrapRight()
-			// Without a stored Last-Modified there is nothing the date could match
-			// and a date is a match only if it is the stored Last-Modified itself (RFC 9110 section 13.1.5)
-			if cached.Metadata.Object.LastModified.IsZero() || !timeIfRange.Equal(cached.Metadata.Object.LastModified) {
-				slog.Info("If-Range does not match cached Last-Modified. Sending full 200 response.", "url", req.URL, "key", key)
-				return ErrIfRangeMismatch
-			}
-		}
-
 	}
 
 	length := end - start + 1
